@@ -174,6 +174,7 @@ fn pack_float(xs: &mut Xstate, n: usize) -> Xresult {
 
 fn word_find(xs: &mut Xstate) -> Xresult {
     let pat = xs.pop_data()?.to_bitstr()?;
+    let start = current_offset(xs)?;
     let rest = rest_bits(xs)?;
     let pat_bytes = pat
         .bytestr()
@@ -183,7 +184,7 @@ fn word_find(xs: &mut Xstate) -> Xresult {
         .bytestr()
         .ok_or_else(|| Xerr::BitstrSliceError(rest.clone()))?;
     if let Some(pos) = memmem::find(&rest_bytes, &pat_bytes) {
-        let offs = rest.start() + pos * 8;
+        let offs = start + pos * 8;
         xs.push_data(Cell::from(offs))
     } else {
         xs.push_data(Cell::Nil)
@@ -200,7 +201,7 @@ fn current_offset(xs: &Xstate) -> Xresult1<usize> {
 
 fn move_offset_checked(xs: &mut Xstate, pos: usize) -> Xresult {
     let s = current_input(xs)?;
-    if s.start() <= pos && pos <= s.end() {
+    if pos <= s.len() {
         xs.set_var(xs.bitstr_mod.offset, Cell::from(pos))?;
         OK
     } else {
@@ -214,8 +215,9 @@ fn move_offset_checked(xs: &mut Xstate, pos: usize) -> Xresult {
 // Advance the cursor past a successful read and push its result. Nothing may
 // fail once the offset has moved, so the only fallible step of push_data (the
 // stack limit) is tested first.
-fn commit_read(xs: &mut Xstate, end: usize, val: Cell) -> Xresult {
+fn commit_read(xs: &mut Xstate, nbits: usize, val: Cell) -> Xresult {
     xs.check_stack_limit()?;
+    let end = current_offset(xs)?.checked_add(nbits).ok_or(Xerr::IntegerOverflow)?;
     move_offset_checked(xs, end)?;
     xs.push_data(val)
 }
@@ -248,7 +250,7 @@ fn word_seek(xs: &mut Xstate) -> Xresult {
 fn word_remain(xs: &mut Xstate) -> Xresult {
     let s = current_input(xs)?;
     let offset = current_offset(xs)?;
-    let res = Cell::from(s.end().max(offset) - offset);
+    let res = Cell::from(s.len().max(offset) - offset);
     xs.push_data(res)
 }
 
@@ -264,11 +266,11 @@ fn word_dump(xs: &mut Xstate) -> Xresult {
 
 fn dump_bitstr_at(xs: &mut Xstate, start: usize, ncols: usize) -> Xresult {
     let s = current_input(xs)?;
-    let end = s.end().min(start.saturating_add(16 * ncols * 8));
+    let end = s.len().min(start.saturating_add(16 * ncols * 8));
     let ss = s
         .substr(start, end)
-        .ok_or_else(|| Xerr::out_of_range(start, s.bits_range()))?;
-    dump_bitstr(xs, &ss, ncols)
+        .ok_or_else(|| Xerr::out_of_range(start, 0..s.len()))?;
+    dump_bitstr(xs, &ss, start, ncols)
 }
 
 pub fn byte_to_dump_char(x: u8) -> char {
@@ -280,14 +282,16 @@ pub fn byte_to_dump_char(x: u8) -> char {
     }
 }
 
-pub(crate) fn fmt_bitstr_dump(s: &Bitstr, ncols: usize) -> String {
+// `first` is the position of s inside the input it was cut from: the label of the first line
+pub(crate) fn fmt_bitstr_dump(s: &Bitstr, first: usize, ncols: usize) -> String {
     let mut buf = String::new();
-    let mut pos = s.start();
+    let mut pos = first;
+    let end = first.saturating_add(s.len());
     let mut hex = String::new();
     let mut ascii = String::new();
     let mut it = s.iter8();
     let mut result = String::new();
-    while pos < s.end() {
+    while pos < end {
         write_dump_position(&mut buf, pos);
         buf.push(':');
         for _ in 0..ncols {
@@ -312,8 +316,8 @@ pub(crate) fn fmt_bitstr_dump(s: &Bitstr, ncols: usize) -> String {
     result
 }
 
-fn dump_bitstr(xs: &mut Xstate, s: &Bitstr, ncols: usize) -> Xresult {
-    let s = fmt_bitstr_dump(s, ncols);
+fn dump_bitstr(xs: &mut Xstate, s: &Bitstr, first: usize, ncols: usize) -> Xresult {
+    let s = fmt_bitstr_dump(s, first, ncols);
     xs.print(&s)
 }
 
@@ -328,7 +332,7 @@ fn write_dump_position(buf: &mut String, start: usize) {
 pub(crate) fn open_bitstr(xs: &mut Xstate, s: Bitstr) -> Xresult {
     let old_offset = xs.get_var(xs.bitstr_mod.offset)?.clone();
     let old_input = xs.get_var(xs.bitstr_mod.input)?.clone();
-    xs.set_var(xs.bitstr_mod.offset, Cell::from(s.start()))?;
+    xs.set_var(xs.bitstr_mod.offset, ZERO)?;
     xs.set_var(xs.bitstr_mod.input, Cell::from(s))?;
     let stash = xs
         .get_var(xs.bitstr_mod.stash)?
@@ -524,14 +528,14 @@ fn word_magic(xs: &mut Xstate) -> Xresult {
             fail_pos: pos,
         });
     }
-    let end = s.end();
-    commit_read(xs, end, Cell::from(s))
+    let nbits = s.len();
+    commit_read(xs, nbits, Cell::from(s))
 }
 
 fn read_bits(xs: &mut Xstate, n: usize) -> Xresult {
     let s = peek_bits(xs, n)?;
-    let end = s.end();
-    commit_read(xs, end, Cell::from(s))
+    let nbits = s.len();
+    commit_read(xs, nbits, Cell::from(s))
 }
 
 fn word_bitstr(xs: &mut Xstate) -> Xresult {
@@ -548,7 +552,7 @@ fn word_bytes(xs: &mut Xstate) -> Xresult {
 fn rest_bits(xs: &mut Xstate) -> Xresult1<Xbitstr> {
     let rest = current_input(xs)?;
     let start = current_offset(xs)?;
-    rest.seek(start).ok_or_else(|| Xerr::out_of_range(start, rest.bits_range()))
+    rest.seek(start).ok_or_else(|| Xerr::out_of_range(start, 0..rest.len()))
 }
 
 fn peek_bits(xs: &mut Xstate, n: usize) -> Xresult1<Xbitstr> {
@@ -557,7 +561,7 @@ fn peek_bits(xs: &mut Xstate, n: usize) -> Xresult1<Xbitstr> {
     if let Some(ss) = start.checked_add(n).and_then(|end| s.substr(start, end)) {
         Ok(ss)
     } else {
-        let remain = s.end().max(start) - start; 
+        let remain = s.len().max(start) - start;
         Err(Xerr::ReadError {
             remain,
             len: n,
@@ -572,8 +576,8 @@ fn read_unsigned(xs: &mut Xstate, n: usize, bo: Byteorder) -> Xresult {
     }
     // a 128-bit field is fine as long as its value fits the signed integer type
     let x = Xint::try_from(s.to_uint(bo)).map_err(|_| Xerr::IntegerOverflow)?;
-    let end = s.end();
-    commit_read(xs, end, Cell::from(x).with_tags(bitstr_num_tags(s, bo)))
+    let nbits = s.len();
+    commit_read(xs, nbits, Cell::from(x).with_tags(bitstr_num_tags(s, bo)))
 }
 
 fn read_signed(xs: &mut Xstate, n: usize, bo: Byteorder) -> Xresult {
@@ -582,8 +586,8 @@ fn read_signed(xs: &mut Xstate, n: usize, bo: Byteorder) -> Xresult {
         return Err(Xerr::IntegerOverflow);
     }
     let x = s.to_int(bo);
-    let end = s.end();
-    commit_read(xs, end, Cell::from(x).with_tags(bitstr_num_tags(s, bo)))
+    let nbits = s.len();
+    commit_read(xs, nbits, Cell::from(x).with_tags(bitstr_num_tags(s, bo)))
 }
 
 fn read_signed_n(xs: &mut Xstate, n: usize) -> Xresult {
@@ -608,8 +612,8 @@ fn read_float(xs: &mut Xstate, n: usize, bo: Byteorder) -> Xresult {
         64 => s.to_f64(bo) as Xreal,
         n => return Err(float_len_err(n)),
     };
-    let end = s.end();
-    commit_read(xs, end, Cell::from(val).with_tags(bitstr_num_tags(s, bo)))
+    let nbits = s.len();
+    commit_read(xs, nbits, Cell::from(val).with_tags(bitstr_num_tags(s, bo)))
 }
 
 fn bitstr_num_tags(bs: Bitstr, bo: Byteorder) -> Xmap {
@@ -621,13 +625,12 @@ fn bitstr_num_tags(bs: Bitstr, bo: Byteorder) -> Xmap {
     m
 }
 
-// peek the NUL-terminated byte string at the cursor: (bytes incl. NUL, end offset)
+// peek the NUL-terminated byte string at the cursor: (bytes incl. NUL, its length in bits)
 fn nulbytestr_peek(xs: &mut Xstate) -> Xresult1<(Bitstr, usize)> {
     let mut s = rest_bits(xs)?;
     if !s.is_bytestr() {
         return Err(Xerr::ToBytestrError(s));
     }
-    let start = s.start();
     let mut len = 0;
     for (x, n) in s.iter8() {
         len += n as usize;
@@ -636,16 +639,16 @@ fn nulbytestr_peek(xs: &mut Xstate) -> Xresult1<(Bitstr, usize)> {
         }
     }
     let ss = s.read(len).unwrap();
-    Ok((ss, start + len))
+    Ok((ss, len))
 }
 
 fn nulbytestr_word(xs: &mut Xstate) -> Xresult {
-    let (bs, end) = nulbytestr_peek(xs)?;
-    commit_read(xs, end, Cell::from(bs))
+    let (bs, nbits) = nulbytestr_peek(xs)?;
+    commit_read(xs, nbits, Cell::from(bs))
 }
 
 fn cstr_word(xs: &mut Xstate) -> Xresult {
-    let (bs, end) = nulbytestr_peek(xs)?;
+    let (bs, nbits) = nulbytestr_peek(xs)?;
     let mut s = String::with_capacity(bs.len() / 8 + 1);
     for (x, _) in bs.iter8() {
         if x == 0 {
@@ -654,7 +657,7 @@ fn cstr_word(xs: &mut Xstate) -> Xresult {
         let c = char::from_u32(x as u32).unwrap();
         s.push(c)
     }
-    commit_read(xs, end, Cell::from(s))
+    commit_read(xs, nbits, Cell::from(s))
 }
 
 fn word_write(xs: &mut Xstate) -> Xresult {
